@@ -131,6 +131,18 @@ def _write_p8(path, g):
     fsx.write_file(path, b''.join(out))
 
 
+def _raw_sections(data):
+    """an independent reader of the .p8 container: {section name: raw text between its header line and the next}"""
+    out, cur = {}, None
+    for ln in data.split(b'\n'):
+        if len(ln) > 4 and ln.startswith(b'__') and ln.endswith(b'__') and ln[2:-2].isalnum():
+            cur = ln[2:-2].decode()
+            out[cur] = []
+        elif cur is not None:
+            out[cur].append(ln)
+    return {k: b'\n'.join(v).strip(b'\n') for k, v in out.items()}
+
+
 def _contents(g):
     d = {s: bytes(getattr(g, s)._data) for s in SECS[1:]}
     d['lua'] = _norm_lua(b''.join(g.lua.to_lines()))
@@ -154,6 +166,7 @@ class Pool:
         self.dir = fsx.mk_sandbox('c13pool')
         self.intern = {}
         self.entries = {}
+        self.raw_by_id = {}          # (section, content id) -> raw .p8 text of that section, for contents that came in a .p8
         rng = random.Random(seed * 7919 + 13)
         try:
             self._build(rng, p8file, Game)
@@ -229,6 +242,11 @@ class Pool:
                 raise RuntimeError('pool cart %s: label section lost or invented' % name)
             if with_label:
                 e['label'] = self.id_of(bytes(r.label._data))
+            raw = _raw_sections(fsx.read_file(self.path(name)))
+            for sname in SECS[1:]:
+                self.raw_by_id[(sname, e['secs'][sname])] = raw.get(sname, b'')
+            if with_label:
+                self.raw_by_id[('label', e['label'])] = raw.get('label', b'')
         else:
             e['img'] = self.id_of(_png_label_pixels(self.path(name)))
         self.entries[name] = e
@@ -549,6 +567,16 @@ def run_impl(case):
                 else:
                     lab = None if g.label is None else idf(bytes(g.label._data))
                 obs['after'] = {'ids': ids, 'label': lab, 'version': g.version}
+                if not out.endswith('.p8.png'):
+                    # independent of picotool's reader: the raw text of each section of OUT against the raw text of the
+                    # .p8 file the content came from
+                    raw = _raw_sections(after)
+                    bad = []
+                    for sname, cid in list(zip(SECS, ids))[1:] + [('label', lab)]:
+                        want = pool.raw_by_id.get((sname, cid))
+                        if want is not None and raw.get(sname, b'') != want:
+                            bad.append(sname)
+                    obs['raw_mismatch'] = bad
             except Exception as e:  # noqa
                 obs['after_err'] = _err(e)
         # classification helpers for signatures: is the Lua handed to to_file compressible?
@@ -616,6 +644,8 @@ def compare(case, obs, answers):
                 return 'model: stored label %s; OUT read back has label %r' % (stored, obs['after']['label'])
             if stored == '~' and not case['out'].endswith('.p8.png') and obs['after']['label'] is not None:
                 return 'model: no label section; OUT read back has one'
+            if obs.get('raw_mismatch'):
+                return 'raw text of OUT section(s) %r differs from the raw text in the .p8 file the content came from' % (obs['raw_mismatch'],)
             if obs['after']['version'] != c['version']:
                 return 'OUT version %r differs from the cart handed to to_file (%r)' % (obs['after']['version'], c['version'])
         return None
